@@ -4,6 +4,41 @@ import PeliteModel.Thm.C07
 /-! Helper lemmas for C05 (may use the C04 / C07 theorems). -/
 namespace Pelite.Pe
 
+/-- `at` with a zero address is Null (both paths, both view kinds). -/
+theorem at_zero_null (v : View) (a : Addr) (hz : a.isZero = true) (min align : Nat) :
+    v.at a min align = .err .null := by
+  cases a with
+  | rva r =>
+    simp [Addr.isZero] at hz; subst hz
+    unfold View.at View.slice
+    cases v.kind <;> simp [sliceFile, sliceSection]
+  | va x =>
+    simp [Addr.isZero] at hz; subst hz
+    unfold View.at View.read
+    cases v.kind <;> simp [readFile, readSection]
+
+/-- `dervaSlice` in the shape the older lemmas unfold it to: the overflow test first, and — because `at`
+answers Null for a zero address by itself — the early Null test only matters in the overflow branch. -/
+theorem dervaSlice_unfold (v : View) (a : Addr) (size align len : Nat) :
+    v.dervaSlice a size align len =
+      if size * len ≥ 18446744073709551616 then .err (if a.isZero then .null else .overflow)
+      else match v.at a (size * len) align with
+        | .ok r => .ok ⟨r.off, size * len, align⟩
+        | .err e => .err e | .panic s => .panic s | .ub s => .ub s | .diverge => .diverge := by
+  unfold View.dervaSlice
+  by_cases hz : a.isZero = true
+  · rw [if_pos hz, at_zero_null v a hz, hz]
+    by_cases ho : size * len ≥ 18446744073709551616
+    · rw [if_pos ho]; simp
+    · rw [if_neg ho]
+  · rw [if_neg hz]
+    have hz' : a.isZero = false := by simpa using hz
+    rw [hz']
+    by_cases ho : size * len ≥ 18446744073709551616
+    · rw [if_pos ho, if_pos ho]; simp
+    · rw [if_neg ho, if_neg ho]
+      cases v.at a (size * len) align <;> rfl
+
 /-! ### `range_file` soundness, shared by `slice_file` and `read_file` -/
 
 theorem rangeFile_sound {size : Nat} {secs : List Sec} (hs : ∀ s ∈ secs, s.InRange) {rva min o l : Nat}
